@@ -335,6 +335,17 @@ impl<'a> Rw<'a> {
                 if self.opts.drop_asserts {
                     self.fire("R-ASSERT.drop");
                     Some(parse_quote!(()))
+                } else if self
+                    .opts
+                    .extra
+                    .get("opaque_assert_conds")
+                    .map(|l| { let t = ts_str(&c).replace(' ', ""); l.split(';').any(|x| !x.trim().is_empty() && t.contains(&x.trim().replace(' ', ""))) })
+                    .unwrap_or(false)
+                {
+                    // R-ASSERT.opaque: the condition uses an operator the verified text cannot type (e.g. `<=` on
+                    // Option<NonZeroU16>); the assert still diverges when false, but NOTHING is learned from passing it
+                    self.fire("R-ASSERT.opaque");
+                    Some(parse_quote!(rt_assert(vx_arbitrary())))
                 } else {
                     self.fire("R-ASSERT.rt");
                     Some(parse_quote!(rt_assert(#c)))
